@@ -180,6 +180,16 @@ def run_case(case):
         r_other = mo.compute_matrices(tq + 2.0, pva, em)
         if r_other is None or np.abs(np.asarray(r_other[0], dtype=float) - z0).max() > 1e-9:
             v('c06-other-row', '%s: querying another present row gives a different answer' % kind)
+        # one object queried repeatedly in arbitrary time order answers like a fresh object each time
+        seq_obj = make(true_measured(kind, p, lever, rates), times=(tq - 1.0, tq, tq + 2.0))
+        for tt in (tq + 2.0, tq, tq - 1.0, tq + 0.5, tq, tq + 2.0):
+            got = seq_obj.compute_matrices(tt, pva, em)
+            ref = make(true_measured(kind, p, lever, rates), times=(tq - 1.0, tq, tq + 2.0)).compute_matrices(tt, pva, em)
+            if (got is None) != (ref is None) or (got is not None and any(
+                    np.abs(np.asarray(a_, float) - np.asarray(b_, float)).max() > 0 for a_, b_ in zip(got, ref))):
+                v('c06-object-remembers-queries', '%s: an object queried at %s in arbitrary order answers differently '
+                  'from a fresh object at t=%r' % (kind, 'tq+2, tq, tq-1, tq+.5, tq, tq+2', tt))
+                break
         # (ii) H = dz/dx
         J = np.zeros((m_exp, n))
         for k in range(n):
